@@ -292,15 +292,44 @@ func (u *Universe) build(batchFast, haveBatch bool) {
 		}
 	}
 
-	u.kos = []KO{
-		{Kind: kUpdate, Out: oNil},
-		{Kind: kUpdate, Out: oErr},
-		{Kind: kUpdate, Out: oPanic},
-		{Kind: kRWCommit},
-		{Kind: kRWRollback},
-		{Kind: kView, Out: oNil},
-		{Kind: kRORollback},
+	// Kinds/outcomes of one program. The variants that close and reopen the
+	// file afterwards come first: a transaction left open by a read-only kind
+	// only shows when Close blocks, and this way it shows in the transition
+	// that leaked it.
+	u.kos = nil
+	if u.ReopenAll {
+		u.kos = append(u.kos, KO{Kind: kView, Out: oNil, MaxOps: 1, Reopen: true})
 	}
+	u.kos = append(u.kos,
+		KO{Kind: kView, Out: oErr, MaxOps: 1, Reopen: true},
+		KO{Kind: kView, Out: oPanic, MaxOps: 1, Reopen: true},
+	)
+	if u.ReopenAll {
+		u.kos = append(u.kos, KO{Kind: kRORollback, MaxOps: 1, Reopen: true})
+	}
+	u.kos = append(u.kos,
+		KO{Kind: kUpdate, Out: oNil, MaxOps: 1, Reopen: true},
+		KO{Kind: kRWCommit, MaxOps: 1, Reopen: true},
+	)
+	if u.ReopenAll {
+		u.kos = append(u.kos,
+			KO{Kind: kUpdate, Out: oErr, MaxOps: 1, Reopen: true},
+			KO{Kind: kUpdate, Out: oPanic, MaxOps: 1, Reopen: true},
+			KO{Kind: kRWRollback, MaxOps: 1, Reopen: true},
+		)
+		if haveBatch {
+			u.kos = append(u.kos, KO{Kind: kBatch, Out: oNil, MaxOps: 1, Reopen: true})
+		}
+	}
+	u.kos = append(u.kos,
+		KO{Kind: kUpdate, Out: oNil},
+		KO{Kind: kUpdate, Out: oErr},
+		KO{Kind: kUpdate, Out: oPanic},
+		KO{Kind: kRWCommit},
+		KO{Kind: kRWRollback},
+		KO{Kind: kView, Out: oNil},
+		KO{Kind: kRORollback},
+	)
 	if haveBatch {
 		bmax := u.BatchOps
 		if !batchFast || bmax == 0 {
@@ -311,28 +340,8 @@ func (u *Universe) build(batchFast, haveBatch bool) {
 			KO{Kind: kBatch, Out: oErr, MaxOps: bmax},
 			KO{Kind: kBatch, Out: oPanic, MaxOps: 1},
 		)
-		if u.ReopenAll {
-			u.kos = append(u.kos, KO{Kind: kBatch, Out: oNil, MaxOps: 1, Reopen: true})
-		}
 	}
-	u.kos = append(u.kos,
-		KO{Kind: kView, Out: oErr, MaxOps: 1},
-		KO{Kind: kView, Out: oPanic, MaxOps: 1},
-		KO{Kind: kSnapshot, Out: oNil, MaxOps: 1},
-		KO{Kind: kUpdate, Out: oNil, MaxOps: 1, Reopen: true},
-		KO{Kind: kRWCommit, MaxOps: 1, Reopen: true},
-	)
-	if u.ReopenAll {
-		u.kos = append(u.kos,
-			KO{Kind: kUpdate, Out: oErr, MaxOps: 1, Reopen: true},
-			KO{Kind: kUpdate, Out: oPanic, MaxOps: 1, Reopen: true},
-			KO{Kind: kRWRollback, MaxOps: 1, Reopen: true},
-			KO{Kind: kView, Out: oNil, MaxOps: 1, Reopen: true},
-			KO{Kind: kView, Out: oErr, MaxOps: 1, Reopen: true},
-			KO{Kind: kView, Out: oPanic, MaxOps: 1, Reopen: true},
-			KO{Kind: kRORollback, MaxOps: 1, Reopen: true},
-		)
-	}
+	u.kos = append(u.kos, KO{Kind: kSnapshot, Out: oNil, MaxOps: 1})
 
 	// Transitions of one state: the reopen transition, then every program
 	// (shortest first) under every kind/outcome.
